@@ -33,7 +33,7 @@ a("maven.interpolating", "index-result", "i = Index(s, \"${\"), j = Index(s[i:],
 a("pypi.ParseDependency", "trimmed", "s is v trimmed of blanks on both sides; nameEnd indexes a delimiter inside s, so s[nameEnd:] is non-empty and ends in a non-blank byte, hence non-empty after TrimLeft; end comes from IndexByte on the same s or is len(s); a constraint that starts with ( and ends with ) has length >= 2", {"s[:nameEnd]": ["nameEnd >= 0"], "s[1:end]": ["end >= 0"], "s[end + 1:]": ["end >= 0"], "s[:end]": ["len(s) > 0"]})
 a("pypi.CanonPackageName", "inlined", "strings.Builder.String inlined")
 a("pypi.SdistVersion", "loop-index", "i is a byte offset produced by ranging over nameVersion and nameVersion[i] is the one-byte rune '-'; the other sites are inlined strings.TrimSuffix", {"nameVersion[i + 1:]": ["r == '-'"]})
-a("pypi.ParseWheelName", "len-set", "name ends with the 4-byte suffix .whl; len(parts) is 5 or 6 after the early return; split is IndexFunc on buildTag or len(buildTag)", {"name[:len(name) - 4]": ["strings.HasSuffix(name, \".whl\")"], "buildTag[:split]": ["split != 0"]})
+a("pypi.ParseWheelName", "len-set", "name ends with the 4-byte suffix .whl; len(parts) is 5 or 6 after the early return; split is IndexFunc on buildTag or len(buildTag)", {"name[:len(name) - 4]": ["strings.HasSuffix(name, \".whl\")"], "buildTag[:split]": ["split != 0"], "parts[0]": ["!(len(parts) != 5 && len(parts) != 6)"], "parts[1]": ["!(len(parts) != 5 && len(parts) != 6)"], "parts[len(parts) - 3]": ["!(len(parts) != 5 && len(parts) != 6)"]})
 # ---- util/resolve
 a("resolve.(*APIClient).Versions", "loop-index", "vers is made with len(resp.Versions) and i ranges over resp.Versions")
 a("resolve.(*APIClient).npmRequirements", "sort-callback", "sort.Slice callback over bundled; TrimPrefix is inlined")
